@@ -3,7 +3,9 @@ import HqModel.Sched.Box
 import HqModel.Sched.Spec
 /-! Driver of the scheduling-decision model (component `sched`, property C15), see /verif/FRAMEWORK.md.
 
-Ops of a case: `worker`, `class`, `queue` build the instance as the harness read it back from the real core;
+Ops of a case: `worker <id> <total> <free> <assigned> <blocked> [<total2> <free2>]`, `class <rq> <need> <weight>
+[<need2>]`, `queue` build the instance as the harness read it back from the real core (the optional fields are the
+second resource kind, 0 when absent);
 `sol` gives the value of every variable of the real MILP in HiGHS' solution, `place` the task ids each worker
 received; `schedule <status>` makes the model answer: its batches, its MILP (variables with exact scaled
 weights, rows), the ids `take_tasks` pops and the queues left, and the verdicts on the implementation's
@@ -139,20 +141,28 @@ def schedule (s : St) (status : String) : List String :=
     else []
   batchLines ++ [s!"out den {m.den}"] ++ varLines ++ rowLines ++ takenLines ++ leftLines ++ verdicts ++ mon
 
+def addWorker (s : St) (id total free assigned blocked total2 free2 : String) : St × List String :=
+  match id.toNat?, total.toNat?, free.toNat?, parseNatList assigned, parseNatList blocked, total2.toNat?, free2.toNat? with
+  | some i, some t, some f, some a, some b, some t2, some f2 =>
+    ({ s with inst := { s.inst with workers := s.inst.workers ++
+        [{ id := i, total := t, free := f, assigned := a, blocked := b, total2 := t2, free2 := f2 }] } }, [])
+  | _, _, _, _, _, _, _ => ({ s with bad := true }, ["out !bad-op"])
+
+def addClass (s : St) (rq need weight need2 : String) : St × List String :=
+  match rq.toNat?, need.toNat?, weight.toNat?, need2.toNat? with
+  | some r, some n, some w, some n2 =>
+    if r ≠ s.inst.classes.length then ({ s with bad := true }, ["out !bad-op"]) else
+    ({ s with inst := { s.inst with classes := s.inst.classes ++ [{ need := n, weight := w, need2 := n2 }] } }, [])
+  | _, _, _, _ => ({ s with bad := true }, ["out !bad-op"])
+
 def step (s : St) (toks : List String) : St × List String :=
   let badOp := ({ s with bad := true }, ["out !bad-op"])
   match toks with
-  | ["worker", id, total, free, assigned, blocked] =>
-    match id.toNat?, total.toNat?, free.toNat?, parseNatList assigned, parseNatList blocked with
-    | some i, some t, some f, some a, some b =>
-      ({ s with inst := { s.inst with workers := s.inst.workers ++ [{ id := i, total := t, free := f, assigned := a, blocked := b }] } }, [])
-    | _, _, _, _, _ => badOp
-  | ["class", rq, need, weight] =>
-    match rq.toNat?, need.toNat?, weight.toNat? with
-    | some r, some n, some w =>
-      if r ≠ s.inst.classes.length then badOp else
-      ({ s with inst := { s.inst with classes := s.inst.classes ++ [{ need := n, weight := w }] } }, [])
-    | _, _, _ => badOp
+  | ["worker", id, total, free, assigned, blocked] => addWorker s id total free assigned blocked "0" "0"
+  | ["worker", id, total, free, assigned, blocked, total2, free2] =>
+    addWorker s id total free assigned blocked total2 free2
+  | ["class", rq, need, weight] => addClass s rq need weight "0"
+  | ["class", rq, need, weight, need2] => addClass s rq need weight need2
   | ["queue", rq, entries] =>
     match rq.toNat?, parseQueue entries with
     | some r, some q =>
